@@ -496,7 +496,20 @@ func clStorm(a []string) string {
 	ep := qnet.NewEndPoint(qnet.ConnStream(x))
 	client := bus.NewClient(bus.NewContext(ep))
 	var cbCount int64
-	client.OnDisconnect(func(error) { atomic.AddInt64(&cbCount, 1) })
+	// one callback in two takes its time: it waits (at most 4 s) until every call has returned and the
+	// subscription is closed.  What the loss of the connection owes to the calls and the subscriptions
+	// does not depend on how long a callback of the application runs.
+	slowCB := seed%2 == 1
+	allDone := make(chan struct{})
+	client.OnDisconnect(func(error) {
+		if slowCB {
+			select {
+			case <-allDone:
+			case <-time.After(4 * time.Second):
+			}
+		}
+		atomic.AddInt64(&cbCount, 1)
+	})
 	_, events, _ := client.Subscribe(1, 1, 900001)
 	evClosed := make(chan struct{})
 	go func() {
@@ -552,9 +565,13 @@ func clStorm(a []string) string {
 	}
 	replies, errs := 0, 0
 	timeout := time.After(10 * time.Second)
+	lossSeen := time.Time{}
 	for k := 0; k < N; k++ {
 		select {
 		case rs := <-results:
+			if rs.err != nil && lossSeen.IsZero() {
+				lossSeen = time.Now()
+			}
 			if rs.err == nil {
 				if len(rs.p) != 3 || rs.p[0] != byte(rs.i) || rs.p[1] != byte(rs.i>>8) {
 					return fmt.Sprintf("fail:call %d got the reply of another call", rs.i)
@@ -583,6 +600,10 @@ func clStorm(a []string) string {
 	case <-time.After(5 * time.Second):
 		return "fail:subscription channel not closed"
 	}
+	if slowCB && !lossSeen.IsZero() && time.Since(lossSeen) > 2500*time.Millisecond {
+		return fmt.Sprintf("fail:calls and subscriptions waited %v for a disconnect callback of the application to return", time.Since(lossSeen).Round(100*time.Millisecond))
+	}
+	close(allDone)
 	deadline := time.Now().Add(2 * time.Second)
 	for atomic.LoadInt64(&cbCount) == 0 && time.Now().Before(deadline) {
 		time.Sleep(time.Millisecond)
